@@ -1390,7 +1390,8 @@ def main(run):
     import units2lean
 
     try:
-        units2lean.generate(common.REPO, os.path.join(common.LEAN_DIR, "PhononModel", "Gen", "Units.lean"))
+        txt = units2lean.generate(common.REPO, os.path.join(common.LEAN_DIR, "PhononModel", "Gen", "Units.lean"))
+        run.cov["units_translation_route"] = "symbolic trace of calculator.py's public functions (tools/units_trace.py)" if "symbolic trace" in txt[:400] else "ast"
     except units2lean.Untranslatable as e:
         run.broke("proof", "T-units: phonopy/units.py or interface/calculator.py left the translatable subset: %s" % e)
     import writers2lean
@@ -1414,7 +1415,7 @@ def main(run):
         "collected by create_FORCE_SETS and compared in eV/Angstrom; accepted: raw F or F - mean(F), atom by atom (see coverage.force_collection). " + U.PRECISION_NOTE)
     run.cov["trusted_base"] = [
         "Lean 4.33 kernel; Mathlib v4.33; axioms per theorem in coverage.theorems",
-        "tools/units2lean.py (ast translator, ~300 lines): every generated definition is re-evaluated in floats against phonopy.units / get_default_physical_units on every run",
+        "tools/units2lean.py (ast translator; when the per-calculator tables are no longer if/elif chains it falls back to tools/units_trace.py: calculator.py executed on symbolic unit constants, public functions called per calculator): every generated definition is re-evaluated in floats against phonopy.units / get_default_physical_units on every run",
         "the specification's constants (Model/UnitSpec.lean: textbook formulas for a0, Eh, eps0) and the reading of unit names (UAtom.meaning)",
         "hand-written CrystalEquiv model; checkEquiv is proved sound, its completeness is not needed (a false 'false' would be an alarm, and is cross-checked by a float re-statement)",
         "per-format completion of structure-block-only outputs (QE namelist, Siesta species block, Fleur markers, CRYSTAL output emulation) in harness/props/c17_util.py",
